@@ -83,6 +83,14 @@ def _driver(cfg, pup_argv, res_fd):
                     child.expect_exact('\x01never' if enc else b'\x01never', timeout=0.05)
                 except pexpect.TIMEOUT:
                     pass
+            if cfg.get('pending_trim'):
+                # a call that times out and, being an exact-string search, keeps only its look-back in the search
+                # buffer: the pending text (what `before` shows after the TIMEOUT) is still all of it
+                try:
+                    child.expect_exact('\x01never' if enc else b'\x01never', timeout=0.2)
+                except pexpect.TIMEOUT:
+                    pass
+                out['pending_before'] = (child.before if enc else child.before.decode('latin-1'))
             out['pending_seen'] = (child.buffer if enc else child.buffer.decode('latin-1'))
         if cfg.get('dead_first'):
             # the harness lets the inner child write its output and exit before interact() is even entered
